@@ -468,6 +468,7 @@ static void apply_set(int k) {
 }
 /* child set-up: library started (under the given poison in the plain build) and brought to the state */
 static const vs_dev_t *g_devs; static int g_nd, g_trace;
+static int g_order;      /* snapshot cases: order in which the configuration files list the boards (cm_model_t.reverse_boards) */
 static void begin(int state, int presence, int start_poison) {
 	hx_child_begin(g_devs, g_nd, g_trace, NULL, 0, 1000000ull * 5000000ull);
 	san_fatal_cb = on_san_fatal; san_mark = san_nevents();
@@ -482,6 +483,9 @@ static void begin(int state, int presence, int start_poison) {
 	 * two DCC signals and one DCC point, in the other presence variants two DCC points and one DCC signal */
 	if (presence == 7) { M.b[0].sd[1] = M.b[0].sd[0]; snprintf(M.b[0].sd[1].id, 24, "signald2"); M.b[0].sd[1].addrl = 0x24; M.b[0].sd[1].initial[0] = 0; M.b[0].nsd = 2; }
 	else { M.b[0].pd[1] = M.b[0].pd[0]; snprintf(M.b[0].pd[1].id, 24, "pointd2"); M.b[0].pd[1].addrl = 0x25; M.b[0].pd[1].initial[0] = 0; M.b[0].npd = 2; }
+	if (g_order) { M.reverse_boards = g_order;      /* every indexed kind on two boards, so that the order of the boards decides the positions */
+		M.b[2].pb[0] = M.b[1].pb[1]; snprintf(M.b[2].pb[0].id, 24, "point9"); M.b[2].pb[0].number = 5; M.b[2].npb = 1;
+		M.b[1].sb[0] = M.b[2].sb[0]; snprintf(M.b[1].sb[0].id, 24, "signal9"); M.b[1].sb[0].number = 0x11; M.b[1].sb[0].initial[0] = 0; M.b[1].nsb = 1; }
 	quiet = 0; cm_install(&M); SB.on_msg = bus_hook;
 	CX.op = "bidib_start_pointer"; if (start_poison) scribble(start_poison);
 	if (hx_start_normal(0)) { if (CX.sibling) _exit(4); res_infra("normal start failed"); }
@@ -660,6 +664,7 @@ static void case_child(const void *job, size_t n) {
 	if (phase == PH_POISON) {
 		int pp[2]; if (pipe(pp) == 0) { sib = fork(); if (sib == 0) { close(pp[0]); sibling_main(pp[1], g, a, state, presence); _exit(0); } close(pp[1]); if (sib > 0) sib_fd = pp[0]; else close(pp[0]); }
 	}
+	g_order = phase == PH_SNAP ? byte : 0;
 	begin(state, presence, phase == PH_POISON ? 0x5A : 0);
 	switch (phase) {
 	case PH_DEEP: phase_deep(g, a); break;
@@ -675,7 +680,8 @@ typedef struct { uint8_t presence, state, phase, getter, arg, byte; } case_t;
 static case_t *CASES; static long NCASES;
 static size_t case_gen(long idx, uint8_t *payload, char *human, size_t hn) {
 	const case_t *c = &CASES[idx]; memcpy(payload, c, 6);
-	if (c->phase == PH_SNAP) snprintf(human, hn, "present(oc1,lc1,booster2)=%d%d%d state=%s phase=%s", c->presence & 1, (c->presence >> 1) & 1, (c->presence >> 2) & 1, SNAME[c->state], PHNAME[c->phase]);
+	if (c->phase == PH_SNAP) { static const char *ON[4] = {"", " boards reversed in both files", " boards reversed in the track file only", " boards reversed in the board file only"};
+		snprintf(human, hn, "present(oc1,lc1,booster2)=%d%d%d state=%s phase=%s%s", c->presence & 1, (c->presence >> 1) & 1, (c->presence >> 2) & 1, SNAME[c->state], PHNAME[c->phase], ON[c->byte & 3]); }
 	else { static arg_t args[MAXARGS]; build_args(&GT[c->getter], args);
 		snprintf(human, hn, "present(oc1,lc1,booster2)=%d%d%d state=%s phase=%s%s getter=%s arg=%s(%s)", c->presence & 1, (c->presence >> 1) & 1, (c->presence >> 2) & 1, SNAME[c->state], PHNAME[c->phase],
 		         c->phase == PH_FREE ? (c->byte == 0x5A ? "(stack 5a)" : "(stack a5)") : "", GT[c->getter].name, args[c->arg].cls, args[c->arg].label); }
@@ -732,9 +738,9 @@ int c17_run(const char *tier) {
 	static const uint8_t PRES[] = {7, 5, 6, 3}; int npres = thorough ? 4 : 1;
 	static arg_t args[MAXARGS]; long cap = 0, pairs = 0;
 	for (int g = 0; g < NGT; g++) pairs += build_args(&GT[g], args);
-	cap = (long) npres * 3 * (pairs * 4 + 2); CASES = calloc((size_t) cap, sizeof(case_t));
+	cap = (long) npres * 3 * (pairs * 4 + 6); CASES = calloc((size_t) cap, sizeof(case_t));
 	for (int v = 0; v < npres; v++) for (int s = 0; s < 3; s++) {
-		CASES[NCASES++] = (case_t) {PRES[v], (uint8_t) s, PH_SNAP, 0, 0, 0};
+		for (int o = 0; o < 4; o++) CASES[NCASES++] = (case_t) {PRES[v], (uint8_t) s, PH_SNAP, 0, 0, (uint8_t) o};      /* boards listed in file order / reversed in both files / in the track file only / in the board file only */
 		for (int g = 0; g < NGT; g++) { int na = build_args(&GT[g], args);
 			for (int a = 0; a < na; a++) {
 #ifdef VARIANT_ASAN
